@@ -1035,7 +1035,8 @@ def model_branch_lines(toks):
 class C14(Base):
     id = "C14"
     assumptions = ["panics inside external modules on requests the orbiter validated, stack exhaustion and out-of-memory cannot be exhibited by the model",
-                   "a panic raised below the wrapped application for a packet the middleware passed on unchanged is attributed to ibc-go, not to the orbiter"]
+                   "a panic raised below the wrapped application for a packet the middleware passed on unchanged is attributed to ibc-go, not to the orbiter",
+                   "IgpSane: the gas paymasters and router gas defaults configured in the Hyperlane module cannot overflow 256 bits with a 64-bit gas limit (set by the paymaster's owner; the streams configure sane ones)"]
 
     def streams(self, tier, seed):
         r = Rng(seed * 1000 + 14)
